@@ -21,6 +21,11 @@ META = {
         "design_ref": "§5 C16, §6", "note": TB + "modelled not verified: std's Vec/Box discipline for the other alloc-feature operations (checked by the recorder's oracle only).",
         "technique": "Lean 4 case analysis over allocator-event traces on regenerated guards + recording-allocator / fault-injection correspondence",
     },
+    "C17": {
+        "text": "serialize_shape (a tuple of declared length N with exactly the N elements in order, no extra framing); ok_iff / no_partial: visit_seq returns Ok exactly when the source delivers N elements and then no surplus (an up-front hint != N rejects before any read; short, long and failing sources are errors) and an Ok array is always the N delivered elements; roundtrip; read_ledger: on every path each element read so far is either in the returned array or dropped exactly once, nothing uninitialised is dropped (by the fill-loop ledger of C04/C07 instantiated with the scripted source). Guards (hint comparison, position == N, probe condition, finish-after-probe order) are regenerated from src/impl_serde.rs. Correspondence: scripted SeqAccess sources with event order, plus real serde_json, serde_json::Value and bincode inputs of every length around N with malformed elements.",
+        "design_ref": "§5 C17", "note": TB + "modelled not verified: serde data-format crates; SeqAccess contract.",
+        "technique": "Lean 4 induction over scripted sources (fill-loop ledger) on regenerated guards + scripted-source and real-format correspondence",
+    },
     "C14": {
         "text": "hex_spec: for every byte string, every precision (or none) and both cases, generic_hex prints exactly the first min(p, 2N) characters of the two-digits-per-byte string, on all three strategies (whole-array table fallback, 2N stack buffer, chunk loop through a reused buffer with a running digit budget - largeLoop_spec by induction on the chunk list, so stale digits are never printed and no slice leaves the buffer); proved for the thresholds the source currently has under the regenerated side conditions 0 < chunk and 2*chunk <= buffer, so changing 1024 to 512 is not an alarm. nibble_table (all 256 byte values x both cases, decide +kernel), input_within (the unreachable_unchecked guard is unreachable), hex_format_spec, feature_independent. Arithmetic, thresholds and alphabets are regenerated from src/hex.rs. Correspondence: the real Display output, faster-hex off and on.",
         "design_ref": "§5 C14", "note": TB + "modelled not verified: core::fmt; faster-hex meets the encode contract (checked by running with the feature).",
